@@ -40,26 +40,54 @@ type FaultCase struct {
 	RecvErr string   `json:"recv_err"`
 	Split   []int    `json:"split"`
 	InTx    bool     `json:"in_tx"` // write through a ReadCommitted transaction and commit afterwards
+	// SrcErr: which error the failing source returns (reader-error): "" an ordinary error,
+	// "unexpected-eof" io.ErrUnexpectedEOF (a truncated gzip stream, an HTTP body cut short),
+	// "wrapped-eof" an error wrapping io.EOF, "canceled" / "deadline" the context errors.
+	// SrcData: the failing Read also delivers the bytes up to the fault position (n > 0 together with err).
+	SrcErr  string `json:"src_err,omitempty"`
+	SrcData bool   `json:"src_data,omitempty"`
 }
 
 var errSource = errors.New("injected source reader failure")
 
 // faultReader delivers b, failing (or cancelling) once pos bytes have been consumed.
 type faultReader struct {
-	b      []byte
-	off    int
-	pos    int
-	split  []int
-	i      int
-	fail   bool
-	cancel context.CancelFunc
-	fired  *atomic.Int64
+	b       []byte
+	off     int
+	pos     int
+	split   []int
+	i       int
+	fail    bool
+	err     error // what the failing Read returns (nil = errSource)
+	withDat bool  // the failing Read delivers the last bytes before pos together with the error
+	cancel  context.CancelFunc
+	fired   *atomic.Int64
+}
+
+func sourceError(kind string) error {
+	switch kind {
+	case "unexpected-eof":
+		return io.ErrUnexpectedEOF
+	case "wrapped-eof":
+		return fmt.Errorf("read body: %w", io.EOF)
+	case "canceled":
+		return context.Canceled
+	case "deadline":
+		return context.DeadlineExceeded
+	}
+	return errSource
 }
 
 func (f *faultReader) Read(p []byte) (int, error) {
+	if f.fail && f.withDat && f.off < f.pos && f.pos <= len(f.b) && f.pos-f.off <= len(p) && len(f.split) == 0 {
+		n := copy(p, f.b[f.off:f.pos])
+		f.off += n
+		f.fired.Add(1)
+		return n, f.err
+	}
 	if f.fail && f.off >= f.pos {
 		f.fired.Add(1)
-		return 0, errSource
+		return 0, f.err
 	}
 	if f.cancel != nil && f.off >= f.pos {
 		f.fired.Add(1)
@@ -236,7 +264,7 @@ func ExecC10(fc FaultCase) *ev.Result {
 	fr := &faultReader{b: src, pos: fc.Pos, split: fc.Split, fired: &fired}
 	switch fc.Fault {
 	case "reader-error":
-		fr.fail = true
+		fr.fail, fr.err, fr.withDat = true, sourceError(fc.SrcErr), fc.SrcData
 	case "cancel":
 		fr.cancel = cancel
 	}
@@ -333,8 +361,8 @@ func ExecC10(fc FaultCase) *ev.Result {
 	if didFire {
 		r.Class("fault-fired")
 	}
-	desc := fmt.Sprintf("%s of %d bytes over prev=%s, fault %s at %d (partial %d, faulty roots %v, free %v, fired=%v) returned %v",
-		fc.Client, fc.Len, fc.Prev, fc.Fault, fc.Pos, fc.Partial, fc.Faulty, fc.Free, didFire, werr)
+	desc := fmt.Sprintf("%s of %d bytes over prev=%s, fault %s at %d (partial %d, faulty roots %v, free %v, source error %q with data %v, fired=%v) returned %v",
+		fc.Client, fc.Len, fc.Prev, fc.Fault, fc.Pos, fc.Partial, fc.Faulty, fc.Free, fc.SrcErr, fc.SrcData, didFire, werr)
 	mustFail, mustSucceed := false, false
 	switch {
 	case !didFire:
